@@ -87,9 +87,10 @@ const (
 	cNotExists      // expected version -1
 	cCurrent        // the version the key has when the request is built
 	cStale          // a version the key does not have
+	cImpossible     // -2: below "not exists", a version no record can have
 )
 
-var condName = []string{"", ",if=-1", ",if=current", ",if=stale"}
+var condName = []string{"", ",if=-1", ",if=current", ",if=stale", ",if=-2"}
 
 type putD struct {
 	key string
@@ -146,6 +147,9 @@ func singles(ks []string) []opD {
 	var o []opD
 	for _, k := range ks {
 		o = append(o, P(k, cNone), P(k, cNotExists), P(k, cCurrent), P(k, cStale), D(k, cNone), D(k, cCurrent), D(k, cStale))
+		if k != "a/b" {
+			o = append(o, P(k, cImpossible), D(k, cImpossible))
+		}
 	}
 	return o
 }
@@ -329,6 +333,8 @@ func (in *inst) resolve(key string, c cond) (*int64, bool) {
 			return nil, false
 		}
 		return oxh.I64(cur.ver), true
+	case cImpossible:
+		return oxh.I64(-2), true
 	case cStale:
 		switch {
 		case cur != nil && cur.ver > 0:
